@@ -675,7 +675,7 @@ def _norm_result(call, res):
 
 def config_pairs(run):
     h = run.harness
-    n = 60 if run.tier == "quick" else 2400
+    n = 150 if run.tier == "quick" else 2400
     base = os.path.join(run.scratch, "pairs")
     r = sh([h, "-profile", "pairs", "-seed", str(run.seed), "-n", str(n), "-out", base, "-root", base + ".db"])
     ops = [json.loads(l) for l in open(base + ".ops")]
